@@ -256,6 +256,37 @@ func C04(x *Ctx) {
 					x.fail("parts-old", "parts-old", "%s: parts listed under MSN %d which is not one of the last two segments", where, s.MSN)
 				}
 			}
+			if so.Delta != nil && so.Delta.Media != nil {
+				// the delta update of the same instant is one more observable playlist: same
+				// MEDIA-SEQUENCE, and every segment it lists is the one the full playlist lists
+				// under that number
+				d := so.Delta.Media
+				x.Stats.Add("C04.delta_playlists_checked", 1)
+				if d.Skip != nil && *d.Skip > 0 {
+					x.Stats.Add("C04.delta_playlists_with_skipped_segments", 1)
+				}
+				if d.MediaSequence != ms {
+					x.fail("delta-ms", "delta-ms", "%s: the delta update announces MEDIA-SEQUENCE %d, the playlist %d", where, d.MediaSequence, ms)
+				}
+				full := map[int]m3u8x.Segment{}
+				for _, s := range pl.Segments {
+					full[s.MSN] = s
+				}
+				for _, s := range d.Segments {
+					f, ok := full[s.MSN]
+					if !ok {
+						x.fail("delta-msn", "delta-unknown", "%s: the delta update lists MSN %d (%s), the playlist does not", where, s.MSN, s.URI)
+						break
+					}
+					if f.URI != s.URI || f.ExtinfRaw != s.ExtinfRaw || f.Gap != s.Gap {
+						x.fail("delta-msn", "delta-differs", "%s: MSN %d is %s (%s, gap %v) in the delta update and %s (%s, gap %v) in the playlist", where, s.MSN, s.URI, s.ExtinfRaw, s.Gap, f.URI, f.ExtinfRaw, f.Gap)
+						break
+					}
+				}
+				if len(d.Segments) > 0 && len(pl.Segments) > 0 && d.Segments[len(d.Segments)-1].MSN != pl.Segments[len(pl.Segments)-1].MSN {
+					x.fail("delta-msn", "delta-tail", "%s: the delta update ends at MSN %d, the playlist at %d", where, d.Segments[len(d.Segments)-1].MSN, pl.Segments[len(pl.Segments)-1].MSN)
+				}
+			}
 			if c.Cfg.Variant == media.VarLL {
 				var nums []int
 				for _, s := range pl.Segments {
